@@ -94,6 +94,29 @@ def _scratch(prefix, base=None):
     return tempfile.mkdtemp(prefix=prefix, dir=base)
 
 
+def _dumper():
+    import yaml
+    return getattr(yaml, 'CSafeDumper', yaml.SafeDumper)
+
+
+_PLUGINS = {'loaded': False}
+
+
+def _load_configuration(path):
+    """load_configuration(); the entry-point scan for plugins (11 ms of importlib.metadata per call, idempotent)
+    is done for real only once per process"""
+    from mapproxy.config import loader
+    orig = loader.load_plugins
+    if _PLUGINS['loaded']:
+        loader.load_plugins = lambda: None
+    try:
+        conf = loader.load_configuration(path, seed=True)
+        _PLUGINS['loaded'] = True
+        return conf
+    finally:
+        loader.load_plugins = orig
+
+
 def _utc():
     if os.environ.get('TZ') != 'UTC':
         os.environ['TZ'] = 'UTC'
@@ -304,7 +327,7 @@ def write_configs(case, root, cov_override=None):
         mp['sources'] = {'wms1': {'type': 'wms', 'req': {'url': 'http://127.0.0.1:1/service', 'layers': 'x'}}}
     mp_file = os.path.join(root, 'mapproxy.yaml')
     with open(mp_file, 'w') as f:
-        yaml.safe_dump(mp, f)
+        yaml.dump(mp, f, Dumper=_dumper())
 
     task = {'caches': ['main']}
     if two_grids:
@@ -696,9 +719,11 @@ def main_root(cache, backend):
     return cache.cache_dir
 
 
-def under(path, root):
-    return path == root or path.startswith(root.rstrip(os.sep) + os.sep) or \
-        (not os.path.isdir(root) and path.startswith(root))
+def under(path, root, file_root=False):
+    """is `path` part of the storage rooted at `root` (a directory, or a database file with its -wal/-shm/... companions)"""
+    if file_root:
+        return path == root or path.startswith(root + '-') or path.startswith(root + '.')
+    return path == root or path.startswith(root.rstrip(os.sep) + os.sep)
 
 
 def run_once(case, root, st_, cov_mode, pool='inline'):
@@ -706,7 +731,6 @@ def run_once(case, root, st_, cov_mode, pool='inline'):
     cov_mode: 'as-is' | 'covering' (full-extent scenario re-run with an all-covering coverage).
     Returns dict(verdicts=[(signature, message)], removed=set(coords), classes=[...], info=...)."""
     import yaml
-    from mapproxy.config.loader import load_configuration
     from mapproxy.config import local_base_config
     from mapproxy.seed.config import load_seed_tasks_conf, SeedConfigurationError
     from mapproxy.seed import cleanup as cleanup_mod
@@ -716,7 +740,7 @@ def run_once(case, root, st_, cov_mode, pool='inline'):
     backend = case['backend']
     os.makedirs(root)
     info = write_configs(case, root)
-    conf = load_configuration(info['mp_file'], seed=True)
+    conf = _load_configuration(info['mp_file'])
     res = {'verdicts': [], 'removed': set(), 'band': set(), 'classes': [], 'refused': False, 'aborted': None}
     with local_base_config(conf.base_config):
         grid_by_name = {}
@@ -757,7 +781,7 @@ def run_once(case, root, st_, cov_mode, pool='inline'):
         sel = set(expected_levels(case, n))
         seed_file = os.path.join(root, 'seed.yaml')
         with open(seed_file, 'w') as f:
-            yaml.safe_dump(seed, f)
+            yaml.dump(seed, f, Dumper=_dumper())
 
         # ---- contents
         T, slack, remove_all = info['T'], info['T_slack'], info['remove_all']
@@ -1039,7 +1063,7 @@ def _check_bystanders(V, prefix, before, after, root, root_main, protected, othe
             return
     # generic: nothing outside the storage of the cleaned cache may vanish or change
     for path, meta in before.items():
-        if under(path, root_main):
+        if under(path, root_main, file_root=backend in ('mbtiles', 'geopackage')):
             continue
         if path.endswith(('-wal', '-shm', '-journal', '.lck')):
             continue
@@ -1071,7 +1095,9 @@ def check_case(case, st_, base=None, pool='inline', honour_exclusions=True):
     _utc()
     _quiet_logging()
     if _OPEN is None:
-        _OPEN = core.open_signatures(PROPERTY)
+        # VERIF_IGNORE_OPEN_FINDINGS=1: search without the exclusions (used to verify proposed fixes on a
+        # patched scratch copy before the findings are marked fixed)
+        _OPEN = set() if os.environ.get('VERIF_IGNORE_OPEN_FINDINGS') else core.open_signatures(PROPERTY)
     if honour_exclusions:
         why = excluded_reason(case, _OPEN)
         if why:
@@ -1121,13 +1147,32 @@ def _check_all(case, st_):
     return check_case(case, st_, honour_exclusions=False)
 
 
+def search(strategy, check, st_, n, seed, max_signatures=4):
+    """core.hyp_search, one root cause at a time: after a (shrunk) failure the search is repeated with that
+    signature ignored, but with a quarter of the budget - a tree with a defect must not cost four full runs."""
+    ignored = set()
+    budget = n
+    for i in range(max_signatures):
+        seen = len(st_.violations)
+
+        def chk(case, s):
+            v = check(case, s)
+            return None if (v is None or v.signature in ignored) else v
+        core.hyp_search(strategy, chk, st_, max_examples=budget, seed=seed + i, max_signatures=1)
+        new = st_.violations[seen:]
+        if not new:
+            break
+        ignored.update(v.signature for v in new)
+        budget = max(40, n // 4)
+    return st_
+
+
 def random_shard(shard, nshards, seed, tier):
     st_ = core.Stats()
-    n = (8000 if tier == 'quick' else 160000) // nshards
+    n = (16000 if tier == 'quick' else 400000) // nshards
     base = _scratch('c12-shard-')
     try:
-        core.hyp_search(cases(), lambda c, s: check_case(c, s, base=base), st_, max_examples=n, seed=seed,
-                        max_signatures=4)
+        search(cases(), lambda c, s: check_case(c, s, base=base), st_, n, seed)
     finally:
         shutil.rmtree(base, ignore_errors=True)
     return st_
